@@ -18,6 +18,7 @@ type Profile struct {
 	// percentages (swarm: each is switched off entirely in some runs)
 	PReorg, PSnapCrash, PCacheOps, PQuery int
 	PForged                               int
+	PrefixSharePct                        int // percent of runs whose leaf hashes share a 27-byte prefix
 	HugePermille                          int // per-mille of runs with one block of 65536+ additions (16-bit counters)
 	NetFaults                             bool
 	QueryModes                            []string
@@ -84,11 +85,11 @@ func init() {
 	lightNodes := func(r *Rng) []NodeCfg {
 		return []NodeCfg{{Kind: "light"}, {Kind: "light"}, {Kind: "light", Big: bigOffset(r)}, {Kind: "stump"}, {Kind: "light", Big: bigOffset(r)}}
 	}
-	reg(&Profile{Name: "c07", PForged: 10, HugePermille: 2, Property: "C07", Oracles: []string{"roots", "light"},
+	reg(&Profile{Name: "c07", PrefixSharePct: 15, PForged: 10, HugePermille: 2, Property: "C07", Oracles: []string{"roots", "light"},
 		Nodes: lightNodes, MaxBlocks: 40, MaxAdds: 40, PReorg: 10, PSnapCrash: 3, NetFaults: true})
-	reg(&Profile{Name: "c08", PForged: 10, HugePermille: 1, Property: "C08", Oracles: []string{"roots", "light"},
+	reg(&Profile{Name: "c08", PrefixSharePct: 15, PForged: 10, HugePermille: 1, Property: "C08", Oracles: []string{"roots", "light"},
 		Nodes: lightNodes, MaxBlocks: 40, MaxAdds: 40, PReorg: 35, PSnapCrash: 3, NetFaults: true})
-	reg(&Profile{Name: "c11", PForged: 10, HugePermille: 2, Property: "C11", Oracles: []string{"roots", "updatedata"},
+	reg(&Profile{Name: "c11", PrefixSharePct: 15, PForged: 10, HugePermille: 2, Property: "C11", Oracles: []string{"roots", "updatedata"},
 		Nodes: func(r *Rng) []NodeCfg {
 			return []NodeCfg{{Kind: "stump"}, {Kind: "stump", Big: bigOffset(r)}, {Kind: "stump", Big: bigOffset(r)}}
 		},
@@ -196,6 +197,9 @@ func Generate(p *Profile, seed uint64) *Scenario {
 	}
 	if sw.Pct(20) {
 		pCache = 0
+	}
+	if p.PrefixSharePct > 0 && sw.Pct(p.PrefixSharePct) {
+		sc.PrefixShare = true
 	}
 	if p.PForged > 0 && sw.Pct(60) {
 		sc.Forged = p.PForged
